@@ -156,6 +156,12 @@ func (n *DestinationAckerNode) worker(
 					handleError(msg, cerrors.Errorf("error while fetching acks: %w", err))
 					return
 				}
+				if len(acks) == 0 {
+					// an empty reply acknowledges nothing, indexing it below
+					// would panic and take the whole process down
+					handleError(msg, cerrors.New("destination connector returned an empty list of acks"))
+					return
+				}
 			}
 
 			ack := acks[0]
